@@ -30,9 +30,9 @@ type sysgen struct {
 
 func systems() []sysgen {
 	return []sysgen{
-		{"Default", semver.DefaultSystem, gen.SameLower(gen.NPMRange, " "), ""},
-		{"NPM", semver.NPM, gen.SameLower(gen.NPMRange, " "), ""},
-		{"Cargo", semver.Cargo, gen.SameLower(gen.CargoReq, ", "), ""},
+		{"Default", semver.DefaultSystem, gen.SmallEdges(gen.SameLower(gen.NPMRange, " ")), ""},
+		{"NPM", semver.NPM, gen.SmallEdges(gen.SameLower(gen.NPMRange, " ")), ""},
+		{"Cargo", semver.Cargo, gen.SmallEdges(gen.SameLower(gen.CargoReq, ", ")), ""},
 		{"Go", semver.Go, func(r *rand.Rand) string { return "v" + gen.SemFull(r, true) }, "v"},
 	}
 }
